@@ -20,8 +20,8 @@ BUDGET = {
 }
 ANCHORS = ["utils:lint"]
 
-CORRUPTIONS = ["no_type", "bad_type", "fanin_on_source", "second_driver", "bbout_second_load", "bbout_nonbuf_load", "dotted_name", "pin_deleted", "pin_retyped", "undriven_gate", "unloaded_node", "single_input", "fanin_on_x", "fanin_on_bbout", "undriven_pin", "pin_direction_swapped", "two_dots_known_instance", "two_dots_unknown_instance"]
-PRODUCERS = ["verilog", "fast_verilog", "bench", "adder", "mux", "popcount", "add_subcircuit", "fill_blackbox", "limit_fanin", "limit_fanout", "ternary", "acyclic_unroll", "insert_registers", "unroll", "sequential_unroll", "sensitization_transform", "sensitivity_transform", "miter_tied", "copy", "relabel", "strip_blackboxes_then_nothing", "supergates", "remove_unloaded", "strip_io", "strip_inputs", "strip_outputs"]
+CORRUPTIONS = ["no_type", "bad_type", "fanin_on_source", "second_driver", "bbout_second_load", "bbout_nonbuf_load", "dotted_name", "pin_deleted", "pin_retyped", "undriven_gate", "unloaded_node", "single_input", "fanin_on_x", "fanin_on_bbout", "undriven_pin", "pin_direction_swapped", "two_dots_known_instance", "two_dots_unknown_instance", "stray_bbout_two_loads", "stray_bbout_gate_load"]
+PRODUCERS = ["verilog", "fast_verilog", "bench", "adder", "mux", "popcount", "add_subcircuit", "fill_blackbox", "limit_fanin", "limit_fanout", "ternary", "acyclic_unroll", "insert_registers", "unroll", "sequential_unroll", "sensitization_transform", "sensitivity_transform", "miter_tied", "copy", "relabel", "strip_blackboxes_then_nothing", "supergates", "remove_unloaded", "strip_io", "strip_inputs", "strip_outputs", "add_blackbox_list"]
 
 
 def gen(rng, ctx):
@@ -143,6 +143,15 @@ def corrupt(cg, c, cors):
                 g.add_node(nm, type="buf", output=True)
                 g.add_edge(src, nm)
                 applied.append(kind)
+        elif kind in ("stray_bbout_two_loads", "stray_bbout_gate_load"):
+            # a bb_output node that is not a declared pin of any instance is still a bb_output
+            g.add_node("zz_bo", type="bb_output", output=False)
+            g.add_node("zz_l0", type="buf" if kind == "stray_bbout_two_loads" else "not", output=True)
+            g.add_edge("zz_bo", "zz_l0")
+            if kind == "stray_bbout_two_loads":
+                g.add_node("zz_l1", type="buf", output=True)
+                g.add_edge("zz_bo", "zz_l1")
+            applied.append(kind)
         elif kind == "pin_deleted":
             n = pick(lambda n: ty[n] in ("bb_input", "bb_output"))
             if n:
@@ -310,6 +319,22 @@ def produce(case, ctx):
         return list(cg.tx.supergates(c))
     if prod in ("strip_io", "strip_inputs", "strip_outputs"):
         return [getattr(cg.tx, prod)(c)]
+    if prod == "add_blackbox_list":
+        # connection values given as lists: either rejected (ValueError) or the result must be well formed
+        p = c.copy()
+        p.add("zz_q0", "buf", output=True)
+        p.add("zz_q1", "buf", output=True)
+        srcs = sorted(n for n in p.nodes() if p.type(n) in G.ALL_GATES + ["input"] and not n.startswith("zz_"))
+        bb = cg.BlackBox("lst", ["d"], ["q"])
+        try:
+            p.add_blackbox(bb, "zz_u", {"d": [srcs[0]] if len(srcs) < 2 or rng.random() < 0.5 else srcs[:2], "q": ["zz_q0", "zz_q1"] if rng.random() < 0.7 else ["zz_q0"]})
+        except ValueError:
+            pass
+        # an undriven buffer left by a rejected call is the caller's business
+        for n in ("zz_q0", "zz_q1"):
+            if not p.fanin(n):
+                p.remove(n)
+        return [p]
     if prod == "remove_unloaded":
         p = c.copy()
         p.remove_unloaded()
